@@ -218,6 +218,28 @@ async fn versatiles_short_tile_index(a: &[String]) -> Result<bool> {
 	Ok(false)
 }
 
+async fn pmtiles_entry_offset_overflow(_a: &[String]) -> Result<bool> {
+	// C19: a directory entry whose offset is close to 2^64 must give an error on lookup, not a panic
+	let d: Vec<u8> = vec![0x01, 0x00, 0x01, 0x01, 0xff, 0xff, 0xff, 0xff, 0xff, 0xff, 0xff, 0xff, 0xff, 0x01];   // id 0, run 1, length 1, offset code u64::MAX
+	let mut f: Vec<u8> = Vec::new();
+	f.extend(b"PMTiles"); f.push(3);
+	let put64 = |f: &mut Vec<u8>, v: u64| f.extend(v.to_le_bytes());
+	put64(&mut f, 127); put64(&mut f, d.len() as u64);
+	put64(&mut f, 127 + d.len() as u64); put64(&mut f, 2);
+	put64(&mut f, 0); put64(&mut f, 0);
+	put64(&mut f, 129 + d.len() as u64); put64(&mut f, 1);
+	put64(&mut f, 1); put64(&mut f, 1); put64(&mut f, 1);
+	f.push(0); f.push(1); f.push(1); f.push(1); f.push(0); f.push(0);
+	for _ in 0..4 { f.extend(0i32.to_le_bytes()); }
+	f.push(0); f.extend(0i32.to_le_bytes()); f.extend(0i32.to_le_bytes());
+	assert_eq!(f.len(), 127);
+	f.extend(&d); f.extend(b"{}"); f.push(b'x');
+	let reader = versatiles_container::PMTilesReader::open_reader(Box::new(versatiles_core::io::DataReaderBlob::from(Blob::from(f)))).await?;
+	let r = reader.get_tile_data(&TileCoord3::new(0, 0, 0)?).await;
+	println!("get_tile_data -> {}", match &r { Ok(Some(b)) => format!("Ok(Some({} bytes))", b.len()), Ok(None) => "Ok(None)".into(), Err(e) => format!("Err({e})") });
+	Ok(false)
+}
+
 fn main() -> Result<()> {
 	let args: Vec<String> = std::env::args().skip(1).collect();
 	if args.is_empty() { eprintln!("usage: verif_replay <case> args…"); std::process::exit(2); }
@@ -232,6 +254,7 @@ fn main() -> Result<()> {
 			"vector_tile_dup_keys" => vector_tile_dup_keys(rest),
 			"pmtiles_open_self_referential" => rt.block_on(pmtiles_open_self_referential(rest)),
 			"versatiles_short_tile_index" => rt.block_on(versatiles_short_tile_index(rest)),
+			"pmtiles_entry_offset_overflow" => rt.block_on(pmtiles_entry_offset_overflow(rest)),
 			"svarint_roundtrip" => svarint_roundtrip(rest),
 			"pbf_length_prefix" => pbf_length_prefix(rest),
 			"vector_tile_from_bytes" => vector_tile_from_bytes(rest),
